@@ -13,6 +13,8 @@ os.environ.setdefault("VERIF_MUTANT", "1")
 os.environ["VERIF_OUT"] = "/tmp/ts-verif-condcov-%d" % os.getpid()
 import pat
 pat.COND_HITS = set()
+import rsrules
+rsrules.RS_COND_HITS = set()
 from core import Ctx
 import extract
 from facts import show
@@ -31,6 +33,32 @@ def main():
         mod.run(ctx)
     finally:
         sys.stdout = so
+    if len(sys.argv) > 3 and sys.argv[2] == "--rust":
+        import rsrules
+        F = extract.rsfacts(sys.argv[3])
+        hits = rsrules.RS_COND_HITS or set()
+        for name in sorted({f for f, _ in hits}):
+            fn = next((f for f in F.fn_list if f.name == name), None)
+            if fn is None:
+                continue
+            rows = []
+            total = 0
+            for b in fn.blocks.values():
+                c = fn.cond(b.id)
+                if c is None or len(b.succs) < 2:
+                    continue
+                txt = rsrules.cond_text(fn, c, True)[0]
+                if txt.startswith("discriminant(") and ("Try>::branch" in txt or "Iterator>::next" in txt or "IntoIterator" in txt):
+                    continue
+                if any(getattr(e, "lab", None) and isinstance(e.lab, dict) and e.lab.get("unreachable") for e in b.succs) and "assert" in txt:
+                    continue
+                total += 1
+                if (name, b.id) not in hits:
+                    rows.append("%s  %s" % (fn.loc((b.id, max(0, len(b.elems) - 1))), txt[:120]))
+            print("%s: %d of %d branch conditions never matched by a text gate" % (name, len(rows), total))
+            for r in rows:
+                print("    " + r)
+        return
     F = extract.cfacts("A")
     hit_fns = {f for f, _ in pat.COND_HITS}
     for name in sorted(hit_fns):
